@@ -27,6 +27,12 @@ EXTRA = {  # seeds that also violate a neighbouring property's statement
     'C06_r3_solve_banded_overwrite_ab_tridiagonal': ['C10', 'C13'],
     'C20_r3_individual_axes_sort_order_loop': ['C01', 'C02'],
     'C12_r3_spline_basis2d_reuses_rows_for_close_axes': ['C07', 'C20'],
+    'C06_r4_eigenvalues_zeroed_by_magnitude_1e_10': ['C20'],
+    'C20_r4_eigenvalues_zeroed_by_sqrt_eps': ['C06'],
+    'C10_r4_solve_banded_overwrite_ab_hardcoded': ['C06', 'C13'],
+    'C16_r4_collab_pls_fabc_raw_method_string': ['C17'],
+    'C17_r4_collab_pls_2d_drops_lowercasing': ['C16'],
+    'C01_r4_yx_arrays_casts_generated_x_data_to_float64': ['C16'],
 }
 
 
